@@ -110,6 +110,10 @@ func (tr *vfC15Trace) opLine(idx int) string {
 			fmt.Fprintf(&sb, "g:%s", vfutil.HexS(tr.ids[ev.inst]))
 		case "mv":
 			fmt.Fprintf(&sb, "mv:%s:%d", vfutil.HexS(ev.key), ev.pk)
+		case "mg":
+			fmt.Fprintf(&sb, "mg:%s:%d", vfutil.HexS(ev.key), ev.pk)
+		case "mk":
+			fmt.Fprintf(&sb, "mk:%s", vfutil.HexS(ev.key))
 		default:
 			fmt.Fprintf(&sb, "%s:%s:%s", ev.kind, vfutil.HexS(ev.key), vfutil.HexS(tr.ids[ev.inst]))
 		}
@@ -140,6 +144,9 @@ type vfC15Runner struct {
 	pool  map[string]vfC15Conn // (slot, ttl) -> connected client, reused across traces
 
 	movedSeen int // cluster lease store: redirects counted so far
+	refusedSeen int // requests refused because the event's redirection budget was spent
+	askedSeen int // -ASK answers counted so far
+	askSvSeen int // requests served by an importing node after ASKING, so far
 }
 
 type vfC15Conn struct {
@@ -430,9 +437,12 @@ func (rn *vfC15Runner) runTrace(tr *vfC15Trace, src string) {
 
 	var lines []string
 	for n, ev := range tr.evs {
+		if rn.st.clusterOn {
+			rn.st.VerifResetRedirects() // counted budget of -MOVED / -ASK per event (a looping client cannot hang the check)
+		}
 		now, pre := rn.snapshot()
 		out := "-"
-		if ev.kind != "t" && ev.kind != "mv" && insts[ev.inst].pending != nil && ev.kind != "g" {
+		if ev.kind != "t" && ev.kind != "mv" && ev.kind != "mg" && ev.kind != "mk" && insts[ev.inst].pending != nil && ev.kind != "g" {
 			rn.t.Fatalf("trace %q: event %d uses instance %q while its call is held", op, n, insts[ev.inst].id)
 		}
 		switch ev.kind {
@@ -448,6 +458,18 @@ func (rn *vfC15Runner) runTrace(tr *vfC15Trace, src string) {
 				s.Count("ev_move_slot_same_owner")
 			}
 			rn.st.VerifMoveSlot(ev.key, ev.pk)
+		case "mg": // the slot of the key starts MIGRATING to another node (IMPORTING there): -ASK for keys the owner has not
+			if rn.st.VerifBeginMigrate(ev.key, ev.pk) {
+				s.Count("ev_migrate_begin")
+			} else {
+				s.Count("ev_migrate_begin_noop")
+			}
+		case "mk": // MIGRATE of the key itself
+			if rn.st.VerifMigrateKey(ev.key) {
+				s.Count("ev_migrate_key")
+			} else {
+				s.Count("ev_migrate_key_noop")
+			}
 		case "c", "r", "x", "l":
 			in := insts[ev.inst]
 			res := vfC15Call(ev.kind, in.election(ev.key))
@@ -566,6 +588,17 @@ func (rn *vfC15Runner) runTrace(tr *vfC15Trace, src string) {
 			s.Count("cluster_trace_with_redirect")
 		}
 		rn.movedSeen = mv
+		ak, sv := rn.st.VerifAsked()
+		s.Add("cluster_requests_asked", ak-rn.askedSeen)
+		s.Add("cluster_requests_served_after_asking", sv-rn.askSvSeen)
+		if ak > rn.askedSeen {
+			s.Count("cluster_trace_with_ask")
+		}
+		rn.askedSeen, rn.askSvSeen = ak, sv
+		if rf := rn.st.VerifRedirectsRefused(); rf > rn.refusedSeen {
+			s.Add("cluster_redirection_budget_spent", rf-rn.refusedSeen)
+			rn.refusedSeen = rf
+		}
 	}
 	s.Op(op, lines...)
 	s.Count("trace_" + src)
@@ -782,11 +815,13 @@ func vfC15ParseTrace(line string) (*vfC15Trace, error) {
 			if _, err := fmt.Sscan(p[1], &ev.delta); err != nil {
 				return nil, err
 			}
-		case p[0] == "mv" && len(p) == 3:
+		case (p[0] == "mv" || p[0] == "mg") && len(p) == 3:
 			ev.key = string(vfutil.UnHex(p[1]))
 			if _, err := fmt.Sscan(p[2], &ev.pk); err != nil || ev.pk < 0 {
 				return nil, fmt.Errorf("bad slot move %q", tok)
 			}
+		case p[0] == "mk" && len(p) == 2:
+			ev.key = string(vfutil.UnHex(p[1]))
 		case p[0] == "g" && len(p) == 2:
 			i, ok := idIdx[string(vfutil.UnHex(p[1]))]
 			if !ok {
@@ -1147,6 +1182,7 @@ func TestVerifC15(t *testing.T) {
 			{kind: "x", key: "k", inst: 0}, {kind: "t", delta: 1500}, {kind: "t", delta: 3001},
 			{kind: "lc", key: "k", inst: 1, applied: true, how: "e"},
 			{kind: "mv", key: "k", pk: 0}, {kind: "mv", key: "k", pk: 1}, {kind: "l", key: "k", inst: 1},
+			{kind: "mg", key: "k", pk: 2}, {kind: "mk", key: "k"},
 		}
 		maxLen := vfutil.Scale(3, 4)
 		var rec func(prefix []vfC15Ev)
@@ -1192,6 +1228,12 @@ func vfC15GenCluster(r *vfutil.Rand, nodes int) *vfC15Trace {
 		}
 		if len(keys) > 0 && r.Chance(1, 5) {
 			evs = append(evs, vfC15Ev{kind: "mv", key: vfutil.Pick(r, keys), pk: r.Intn(nodes)})
+		}
+		if len(keys) > 0 && r.Chance(1, 5) {
+			evs = append(evs, vfC15Ev{kind: "mg", key: vfutil.Pick(r, keys), pk: r.Intn(nodes)})
+		}
+		if len(keys) > 0 && r.Chance(1, 6) {
+			evs = append(evs, vfC15Ev{kind: "mk", key: vfutil.Pick(r, keys)})
 		}
 		evs = append(evs, ev)
 	}
